@@ -63,6 +63,7 @@ type cgExpr struct {
 	ground *cgTy
 	eqs    [][2]*cgTy // the equations this expression (with its sub-expressions) imposes
 	once   bool       // contains the application of a function-typed parameter: may be written once
+	isVar  bool       // a plain name (only names can be applied in Folang)
 }
 
 func cgHasFunc(t *cgTy) bool {
@@ -94,7 +95,9 @@ type cgGraph struct {
 	eqs    [][2]*cgTy
 	fresh  int
 	pool   []*cgExpr // expressions built so far
-	pre    []string  // destructuring lets, in order
+	pre    []string  // destructuring lets and let-bound expressions, in order
+	lets   []*cgExpr // the let-bound names (all of them are part of the result)
+	bases  []*cgTy
 	used   map[*cgExpr]bool // function-typed parameters already applied (they are applied once)
 }
 
@@ -118,29 +121,42 @@ func (g *cgGraph) add(e *cgExpr, from ...*cgExpr) {
 		}
 		g.take(f)
 	}
+	if g.r.Intn(3) == 0 && !cgHasFunc(e.ground) {
+		// bind it: every let is its own batch of relations for the resolver; the relations of the
+		// right-hand side hold whether or not the name is used again
+		n := len(g.lets)
+		name := fmt.Sprintf("m%d", n)
+		g.pre = append(g.pre, "let "+name+" = "+e.fo)
+		g.eqs = append(g.eqs, e.eqs...)
+		v := &cgExpr{fo: name, ty: e.ty, ground: e.ground}
+		g.lets = append(g.lets, v)
+		g.pool = append(g.pool, v)
+		return
+	}
 	g.pool = append(g.pool, e)
 }
 
 func (g *cgGraph) newVar() *cgTy { g.fresh++; return cgVar("F" + strconv.Itoa(g.fresh)) }
 
+// ground types are drawn from few bases per graph, so that parameters of related types
+// (X, []X, [][]X, X*Y) meet often: constraint graphs with chains need such coincidences
 func (g *cgGraph) groundType(depth int) *cgTy {
-	k := g.r.Intn(10)
+	if g.bases == nil {
+		all := []*cgTy{cgCon("int"), cgCon("string"), cgCon("bool"), cgVar("g0"), cgVar("g1"), cgVar("g2")}
+		g.r.Shuffle(len(all), func(i, j int) { all[i], all[j] = all[j], all[i] })
+		g.bases = all[:2]
+	}
+	base := g.bases[g.r.Intn(len(g.bases))]
+	k := g.r.Intn(20)
 	switch {
-	case depth <= 0 || k < 5:
-		switch g.r.Intn(6) {
-		case 0:
-			return cgCon("int")
-		case 1:
-			return cgCon("string")
-		case 2:
-			return cgCon("bool")
-		default:
-			return cgVar("g" + strconv.Itoa(g.r.Intn(3)))
-		}
-	case k < 8:
-		return cgCon("[]", g.groundType(depth-1))
+	case depth <= 0 || k < 8:
+		return base
+	case k < 15:
+		return cgCon("[]", base)
+	case k < 17:
+		return cgCon("[]", cgCon("[]", base))
 	default:
-		return cgCon("*", g.groundType(depth-1), g.groundType(depth-1))
+		return cgCon("*", base, g.bases[g.r.Intn(len(g.bases))])
 	}
 }
 
@@ -153,6 +169,104 @@ func (g *cgGraph) ofGround(t *cgTy) []*cgExpr {
 		}
 	}
 	return out
+}
+
+func cgSlice2(e, o *cgExpr) *cgExpr {
+	return &cgExpr{fo: "[" + e.fo + "; " + o.fo + "]", ty: cgCon("[]", e.ty), ground: cgCon("[]", e.ground), eqs: cgJoin(e.eqs, o.eqs, [][2]*cgTy{{e.ty, o.ty}})}
+}
+
+func cgSingle(e *cgExpr) *cgExpr {
+	return &cgExpr{fo: "[" + e.fo + "]", ty: cgCon("[]", e.ty), ground: cgCon("[]", e.ground), eqs: e.eqs}
+}
+
+func cgPair(e, o *cgExpr) *cgExpr {
+	return &cgExpr{fo: "(" + e.fo + ", " + o.fo + ")", ty: cgCon("*", e.ty, o.ty), ground: cgCon("*", e.ground, o.ground), eqs: cgJoin(e.eqs, o.eqs)}
+}
+
+// let-bind an expression (its relations are imposed where the let stands)
+func (g *cgGraph) bind(e *cgExpr) *cgExpr {
+	n := len(g.lets)
+	name := fmt.Sprintf("m%d", n)
+	g.pre = append(g.pre, "let "+name+" = "+e.fo)
+	g.eqs = append(g.eqs, e.eqs...)
+	v := &cgExpr{fo: name, ty: e.ty, ground: e.ground, isVar: true}
+	g.lets = append(g.lets, v)
+	g.pool = append(g.pool, v)
+	return v
+}
+
+// CHAIN shape: two (three) parameters are each related to a structured type in their own let - one
+// with an inner parameter, one with inner knowledge (a literal or another parameter) - and are
+// unified with each other in another let; the inner types are determined only through that link.
+// The order of the lets is random (link last, first or in the middle).
+func (g *cgGraph) chain() {
+	if len(g.params) < 3 {
+		return
+	}
+	r, s, a := g.params[0], g.params[1], g.params[2]
+	x := g.bases[0]
+	form := g.r.Intn(3)
+	wrapT := func(t *cgTy) *cgTy {
+		switch form {
+		case 0:
+			return cgCon("[]", t)
+		case 1:
+			return cgCon("[]", cgCon("[]", t))
+		}
+		return cgCon("*", t, cgCon("string"))
+	}
+	wrapE := func(e *cgExpr) *cgExpr {
+		switch form {
+		case 0:
+			return cgSingle(e)
+		case 1:
+			return cgSingle(cgSingle(e))
+		}
+		return cgPair(e, &cgExpr{fo: "\"s\"", ty: cgCon("string"), ground: cgCon("string")})
+	}
+	r.ground, s.ground, a.ground = wrapT(x), wrapT(x), x
+	var know *cgExpr
+	switch {
+	case x.v == "" && x.head == "int":
+		know = &cgExpr{fo: "1", ty: cgCon("int"), ground: x}
+	case x.v == "" && x.head == "string":
+		know = &cgExpr{fo: "\"k\"", ty: cgCon("string"), ground: x}
+	case x.v == "" && x.head == "bool":
+		know = &cgExpr{fo: "true", ty: cgCon("bool"), ground: x}
+	default:
+		if len(g.params) >= 4 {
+			g.params[3].ground = x
+			know = g.params[3]
+		} else {
+			know = a
+		}
+	}
+	steps := []func(){
+		func() { g.bind(cgSlice2(r, wrapE(a))) },
+		func() { g.bind(cgSlice2(s, wrapE(know))) },
+	}
+	link := func() {
+		if g.r.Intn(2) == 0 {
+			g.bind(cgSlice2(r, s))
+		} else {
+			g.bind(cgPair(cgSlice2(s, r), &cgExpr{fo: "1", ty: cgCon("int"), ground: cgCon("int")}))
+		}
+	}
+	g.r.Shuffle(len(steps), func(i, j int) { steps[i], steps[j] = steps[j], steps[i] })
+	switch g.r.Intn(4) {
+	case 0:
+		link()
+		steps[0]()
+		steps[1]()
+	case 1:
+		steps[0]()
+		link()
+		steps[1]()
+	default:
+		steps[0]()
+		steps[1]()
+		link()
+	}
 }
 
 // grow the pool by one derived expression; returns false when nothing applied
@@ -168,9 +282,9 @@ func (g *cgGraph) derive() bool {
 		g.pre = append(g.pre, fmt.Sprintf("let (d%da, d%db) = %s", n, n, e.fo))
 		g.eqs = append(g.eqs, cgJoin(e.eqs, [][2]*cgTy{{e.ty, cgCon("*", a, b)}})...)
 		g.take(e)
-		g.pool = append(g.pool, &cgExpr{fo: fmt.Sprintf("d%da", n), ty: a, ground: e.ground.args[0]}, &cgExpr{fo: fmt.Sprintf("d%db", n), ty: b, ground: e.ground.args[1]})
+		g.pool = append(g.pool, &cgExpr{fo: fmt.Sprintf("d%da", n), ty: a, ground: e.ground.args[0], isVar: true}, &cgExpr{fo: fmt.Sprintf("d%db", n), ty: b, ground: e.ground.args[1], isVar: true})
 	case 8, 9: // application of a function-typed parameter (once)
-		if e.ground.v != "" || e.ground.head != "->" || g.used[e] {
+		if e.ground.v != "" || e.ground.head != "->" || g.used[e] || !e.isVar {
 			return false
 		}
 		c := g.ofGround(e.ground.args[0])
@@ -243,7 +357,7 @@ func c02GraphGen(r *rand.Rand, name string) (fo string, oracleIn string, nparams
 	np := 1 + r.Intn(5)
 	var pnames []string
 	for i := 0; i < np; i++ {
-		p := &cgExpr{fo: fmt.Sprintf("p%d", i), ty: cgVar("P" + strconv.Itoa(i)), ground: g.groundType(2)}
+		p := &cgExpr{fo: fmt.Sprintf("p%d", i), ty: cgVar("P" + strconv.Itoa(i)), ground: g.groundType(2), isVar: true}
 		if r.Intn(3) == 0 {
 			p.ground = cgCon("->", g.groundType(1), g.groundType(1))
 		}
@@ -251,9 +365,12 @@ func c02GraphGen(r *rand.Rand, name string) (fo string, oracleIn string, nparams
 		g.pool = append(g.pool, p)
 		pnames = append(pnames, p.fo)
 	}
+	if r.Intn(3) == 0 {
+		g.chain()
+	}
 	// literals join the pool so that ground-int parameters can be pinned (or not)
 	g.pool = append(g.pool, &cgExpr{fo: "1", ty: cgCon("int"), ground: cgCon("int")}, &cgExpr{fo: "\"s\"", ty: cgCon("string"), ground: cgCon("string")}, &cgExpr{fo: "true", ty: cgCon("bool"), ground: cgCon("bool")})
-	for i := r.Intn(10); i > 0; i-- {
+	for i := r.Intn(12); i > 0; i-- {
 		g.derive()
 	}
 	var conj []string
@@ -273,12 +390,17 @@ func c02GraphGen(r *rand.Rand, name string) (fo string, oracleIn string, nparams
 		sb.WriteString("  " + p + "\n")
 	}
 	sb.WriteString("  let ok = " + strings.Join(conj, " && ") + "\n")
-	sb.WriteString("  (ok, " + res.fo + ")\n")
+	// result: (ok, (m0, (m1, … res))) - every let-bound name is used
+	resFo, resT := res.fo, res.ty
+	for i := len(g.lets) - 1; i >= 0; i-- {
+		resFo, resT = "("+g.lets[i].fo+", "+resFo+")", cgCon("*", g.lets[i].ty, resT)
+	}
+	sb.WriteString("  (ok, " + resFo + ")\n")
 	var eqs []string
 	for _, e := range g.eqs {
 		eqs = append(eqs, vsx(e[0].sx(), e[1].sx()))
 	}
-	resTy := cgCon("*", cgCon("bool"), res.ty)
+	resTy := cgCon("*", cgCon("bool"), resT)
 	return sb.String(), vsx("c02.graph", strconv.Itoa(np), vsx(eqs...), resTy.sx(), vsxStr(sb.String())), np
 }
 
